@@ -174,6 +174,10 @@ class Reserved:
         return self.why(name)
 
 
+def call_name_of(c: ast.Call) -> Optional[str]:
+    return c.func.id if isinstance(c.func, ast.Name) else (c.func.attr if isinstance(c.func, ast.Attribute) else None)
+
+
 def always_raises(body) -> Optional[bool]:
     """True: every path through the statement list ends in a `raise`; False: the list contains no `raise` at all;
     None: it raises on some paths only (or in a form that is not understood)."""
@@ -279,6 +283,62 @@ def read_reserved(ctx, rid: str) -> Reserved:
         """Statements executed when the membership test is true."""
         return st.body if pol else st.orelse
 
+    def part_search(e, depth=0):
+        """The string collection P when `e` is truthy / not None exactly if some element of P occurs in v."""
+        if depth > 4:
+            return None
+        if isinstance(e, ast.Name) and not is_v(e):
+            defs = ctx.rd(f).defs_reaching(e)
+            val = assigned_value(defs[0], e.id) if len(defs) == 1 and not isinstance(defs[0], ast.arguments) else None
+            return part_search(val, depth + 1) if val is not None else None
+        if not isinstance(e, ast.Call) and not isinstance(e, (ast.ListComp, ast.GeneratorExp, ast.SetComp)):
+            return None
+        comp = None
+        if isinstance(e, ast.Call) and isinstance(e.func, ast.Name) and e.args:
+            a0 = e.args[0]
+            if e.func.id == "any" and len(e.args) == 1 and isinstance(a0, (ast.GeneratorExp, ast.ListComp)) \
+                    and len(a0.generators) == 1 and not a0.generators[0].ifs and isinstance(a0.generators[0].target, ast.Name):
+                g = a0.generators[0]
+                if in_test(a0.elt, lambda x: isinstance(x, ast.Name) and x.id == g.target.id, is_v) is not None:
+                    return string_collection(ctx, f, g.iter)
+                return None
+            if e.func.id == "next" and len(e.args) == 2 and isinstance(e.args[1], ast.Constant) and e.args[1].value is None:
+                comp = a0
+            elif e.func.id in ("list", "tuple", "set", "bool", "len") and len(e.args) == 1:
+                return part_search(a0, depth + 1)
+        elif isinstance(e, (ast.ListComp, ast.GeneratorExp, ast.SetComp)):
+            comp = e
+        # (d for d in P if d in v)
+        if isinstance(comp, (ast.ListComp, ast.GeneratorExp, ast.SetComp)) and len(comp.generators) == 1:
+            g = comp.generators[0]
+            if isinstance(g.target, ast.Name) and len(g.ifs) == 1 and isinstance(comp.elt, ast.Name) and comp.elt.id == g.target.id \
+                    and in_test(g.ifs[0], lambda x: isinstance(x, ast.Name) and x.id == g.target.id, is_v) is not None:
+                return string_collection(ctx, f, g.iter)
+        return None
+
+    def part_hit_test(t):
+        """(collection, polarity) when test `t` decides whether some reserved part occurs in v (polarity: true = occurs)."""
+        pol = True
+        while isinstance(t, ast.UnaryOp) and isinstance(t.op, ast.Not):
+            t, pol = t.operand, not pol
+        if isinstance(t, ast.Compare) and len(t.ops) == 1:
+            op, rhs = t.ops[0], t.comparators[0]
+            if isinstance(rhs, ast.Constant) and rhs.value is None and isinstance(op, (ast.Is, ast.IsNot, ast.Eq, ast.NotEq)):
+                r = part_search(t.left)
+                return (r, pol == isinstance(op, (ast.IsNot, ast.NotEq))) if r is not None else None
+            if isinstance(rhs, ast.Constant) and rhs.value in (0, 1) and isinstance(t.left, ast.Call) and call_name_of(t.left) == "len":
+                r = part_search(t.left)
+                if r is None:
+                    return None
+                if (rhs.value == 0 and isinstance(op, (ast.Gt, ast.NotEq))) or (rhs.value == 1 and isinstance(op, ast.GtE)):
+                    return r, pol
+                if (rhs.value == 0 and isinstance(op, ast.Eq)) or (rhs.value == 1 and isinstance(op, ast.Lt)):
+                    return r, not pol
+                return None
+            return None
+        r = part_search(t)
+        return (r, pol) if r is not None else None
+
     names = parts = names_stmt = parts_stmt = names_test = parts_test = None
     names_raise = parts_raise = False
     for st in walk_shallow(f.node):
@@ -293,17 +353,14 @@ def read_reserved(ctx, rid: str) -> Reserved:
                     names, names_stmt = r[0], r[1] or st
                     br = hit_branch(st, m[2])
                     names_test, names_raise = st, (raises(br) if br else False)
-            # `if any(d in v for d in <parts>):`
-            t = st.test
-            if isinstance(t, ast.Call) and isinstance(t.func, ast.Name) and t.func.id == "any" and len(t.args) == 1 \
-                    and isinstance(t.args[0], (ast.GeneratorExp, ast.ListComp)) and len(t.args[0].generators) == 1:
-                g = t.args[0].generators[0]
-                if isinstance(g.target, ast.Name) and not g.ifs \
-                        and in_test(t.args[0].elt, lambda x: isinstance(x, ast.Name) and x.id == g.target.id, is_v) is not None:
-                    r = string_collection(ctx, f, g.iter)
-                    if r is not None:
-                        parts, parts_stmt = r[0], r[1] or st
-                        parts_test, parts_raise = st, raises(st.body)
+            # `if <some part of P occurs in v>:` — any(d in v for d in P), next((d for d in P if d in v), None) is not None,
+            # [d for d in P if d in v], also through a local that holds the search result
+            ph = part_hit_test(st.test)
+            if ph is not None:
+                r, pol = ph
+                parts, parts_stmt = r[0], r[1] or st
+                br = hit_branch(st, pol)
+                parts_test, parts_raise = st, (raises(br) if br else False)
         if isinstance(st, ast.For) and isinstance(st.target, ast.Name):
             r = string_collection(ctx, f, st.iter)
             if r is None:
@@ -329,18 +386,26 @@ def read_reserved(ctx, rid: str) -> Reserved:
 
 def check_vname_is_applied(ctx, rid: str):
     """check_vname is called on every declared variable name of an operator template: a call inside a loop over the
-    template's variables in OperatorTemplate.apply whose first argument is the loop's name target.
-    Returns (function, call) — call is None when no such call exists."""
+    template's variables (the loop's iterable reads an attribute `variables`) whose first argument is the loop's name target,
+    located in OperatorTemplate.apply or in a function apply reaches through the call graph (extracted private helper).
+    Returns (OperatorTemplate.apply, call) — call is None when no such call exists."""
     f = ctx.repo.get_func(OPERATOR_REL, "OperatorTemplate.apply")
     target = ctx.repo.get_func(OPERATOR_REL, "check_vname")
-    var_loops = [l for l in walk_shallow(f.node) if isinstance(l, ast.For) and "variables" in ast.unparse(l.iter)]
-    if not var_loops:
+    reach = ctx.cg.reachable([f])
+    n_loops = 0
+    for g in sorted(reach, key=lambda x: (x is not f, x.qual)):
+        if g.module is not f.module:
+            continue
+        var_loops = [l for l in walk_shallow(g.node) if isinstance(l, ast.For)
+                     and any(isinstance(n, ast.Attribute) and n.attr == "variables" for n in ast.walk(l.iter))]
+        n_loops += len(var_loops)
+        for call, targets, _how in ctx.cg.calls.get(g, ()):
+            if target in targets and call.args and isinstance(call.args[0], ast.Name):
+                for a in _ancestors(call):
+                    if a in var_loops and call.args[0].id in target_names(a.target):
+                        return f, call
+    if not n_loops:
         raise AnalysisError(f"{rid}: OperatorTemplate.apply no longer loops over the template's variables (unrecognised form)")
-    for call, targets, _how in ctx.cg.calls.get(f, ()):
-        if target in targets and call.args and isinstance(call.args[0], ast.Name):
-            for a in _ancestors(call):
-                if a in var_loops and call.args[0].id in target_names(a.target):
-                    return f, call
     return f, None
 
 
